@@ -141,6 +141,9 @@ func TestC18(t *testing.T) {
 			}
 		}
 		c18ActionEntries(rep, f, mode, L)
+		if L >= 4096 && L <= 1<<20 {
+			c18PresentBefore(rep, mode, L)
+		}
 		for _, p := range f.invariants() {
 			rep.Violate("C18 cache inconsistent "+genericKey(p), p, nil)
 		}
@@ -209,6 +212,65 @@ func c18ActionEntries(rep *vlib.Report, f *fx, mode string, L int64) {
 				rep.Nontrivial(id)
 			}
 		}
+	}
+}
+
+// c18PresentBefore: the oversize blob is ALREADY in the cache (the directory was filled
+// under a larger limit, then the server restarted with max_blob_size L): an upload of it is
+// still an item over the limit and is refused with a client error on every CAS write path.
+func c18PresentBefore(rep *vlib.Report, mode string, L int64) {
+	f0 := newFx(fxOpts{mode: mode, validateAC: true, keepDir: true})
+	type item struct {
+		path    string
+		n       int64
+		content []byte
+	}
+	var items []item
+	for _, path := range []string{"http", "http_zstd", "batch", "batch_zstd", "bs", "bs_zstd", "splice", "splice_nodigest"} {
+		for _, n := range []int64{L + 1, 4 * L} {
+			if strings.HasPrefix(path, "splice") && n != L+1 {
+				continue // the chunks must be within the limit themselves
+			}
+			c := vlib.Bytes(fmt.Sprintf("c18/present-before/%s/%d/%s/%d", mode, L, path, n), int(n), false)
+			if r := f0.upload(upReq{path: "bs", hash: vlib.Sha(c), size: n, wire: c, abortAfter: -1}); !r.ok {
+				rep.BrokenHarness("populating the directory: %s", r.status)
+				f0.close()
+				return
+			}
+			items = append(items, item{path, n, c})
+		}
+	}
+	f0.settle()
+	dir := f0.dir
+	f0.close()
+	f := newFx(fxOpts{mode: mode, maxBlob: L, validateAC: true, dir: dir})
+	defer f.close()
+	for _, it := range items {
+		rep.Eval()
+		wire := it.content
+		if pathIsZstd(it.path) {
+			wire = vlib.ZstdEncode(it.content)
+		}
+		u := upReq{path: it.path, hash: vlib.Sha(it.content), size: it.n, wire: wire, abortAfter: -1}
+		if strings.HasPrefix(it.path, "splice") {
+			a := int(it.n) / 2
+			u.chunks = [][]byte{it.content[:a], it.content[a:]}
+		}
+		res := f.upload(u)
+		f.settle()
+		id := fmt.Sprintf("mode=%s max_blob_size=%d path=%s size=%d, blob already present (stored under a larger limit) -> %s", mode, L, it.path, it.n, res.status)
+		key := fmt.Sprintf("C18 path=%s size-vs-limit=%s blob-already-present", it.path, cmpClass(it.n, L))
+		switch {
+		case res.ok:
+			rep.Violate(key+" oversize item accepted", id, nil)
+		case !clientErrors[res.status] && !strings.HasPrefix(res.status, "chunk upload failed"):
+			rep.Violate(key+" oversize item refused with a non-client error", id, nil)
+		default:
+			rep.Nontrivial(id)
+		}
+	}
+	for _, p := range f.takePanics() {
+		rep.Violate("C14 handler panic during C18", p, nil)
 	}
 }
 
